@@ -371,7 +371,13 @@ func c16Child(c *Ctx) error {
 			}
 			// the garbler's own key and wires do not depend on the corruption
 			key := base.g2e[4:36]
-			in := L(Bytes(key), dims, gs, L(I(n0), I(n1)), Ints(outSizes(circ)), Labels(grand.blocks), Bits(x), Bits(y), Labels(returned))
+			// the raw tail bytes as delivered and a read fragmentation for the Conn model (the
+			// model's result must not depend on it: C11)
+			fragSX := []SX{}
+			for k := 0; k < fi%4; k++ {
+				fragSX = append(fragSX, I(1+(fi*7+k*5)%23))
+			}
+			in := L(Bytes(key), dims, gs, L(I(n0), I(n1)), Ints(outSizes(circ)), Labels(grand.blocks), Bits(x), Bits(y), Labels(returned), Bytes(dl[tail:]), L(fragSX...))
 			rec.In = in.String()
 			rec.Obs = obs.String()
 			emit()
